@@ -116,7 +116,16 @@ def r2_r3_step(ctx, E):
         return
     step = steps[0]
     outs = ctx.px(step, inline=lambda c, d: True, key="all", max_depth=6)
-    chunk_size = ctx.facts.consts.get("file::CHUNK_SIZE", {}).get("int")
+    # the read size: the constant the step reads when more than that is left (whatever the constant is called)
+    sizes = set()
+    for o in outs:
+        for e in o.events:
+            if e["k"] == "call" and e["callee"].get("path") == "libc::pread" and is_const(e["args"][2]):
+                sizes.add(e["args"][2][1])
+    chunk_size = next(iter(sizes)) if len(sizes) == 1 else None
+    if chunk_size is None or chunk_size <= 0:
+        ctx.violation("C18.R2", "C18.R2|chunk-size", "UNRECOGNISED: the unfold step does not read with one positive constant size when more than that is left (%s)" % sorted(sizes))
+        return
     # the two u64 components of the unfold state, by use: the step first compares them (nothing left?); the one the read is
     # issued at is the current position S, the other the end En (whatever the state's shape: a Range in a tuple, a struct ..)
     _ROLES.clear()
